@@ -391,3 +391,10 @@ CLAIMS["C05"]["text"] += (" Callers may arrive with a context that is already ov
 
 CLAIMS["C17"]["text"] += (" Connections are drawn from {direct, relayed} (remote address <relay>/p2p/<relay id>/p2p-circuit, observer = relay's IPv4 address or IPv6 /56): reports on relayed connections are held to the same count, replace and withdraw-on-close oracle as direct ones, in the generated histories and in the boundary and ineligible sweeps.")
 CLAIMS["C17"]["note"] += (" 'Relayed reports never count' is read on the observed address; a plain observed address reported over a relayed connection counts with the relay's IP as observer and must be withdrawn on change or close.")
+
+CLAIMS["C09"]["text"] += (" TestMemGlobalCap: the in-memory book's global cap on unconnected addresses (WithMaxAddresses 1-6) under add / set / TTL-class updates with lifetimes far above the case's duration, against an exact model of the documented rule: entries in a connected class never count and are never refused or dropped, an unconnected address is admitted whenever fewer than cap are stored, incl. after finite->connected and connected->finite transitions.")
+CLAIMS["C09"]["note"] += (" In TestMemGlobalCap nothing expires (the count of unconnected addresses is then exact without modelling GC timing); when a connected->finite update fits only some of several entries under the cap the choice is open and the case is not compared further (labelled). The datastore book has no global cap.")
+CLAIMS["C14"]["text"] += (" Decaying-tag lifecycle is part of the history: Close() and RegisterDecayingTag under a closed tag's name at any distance from the Close, including while the closure is still queued behind a bump the decayer is applying (schedule pinned through the bump callback), plus Bump/Remove/Close on closed handles. A re-registered tag must follow its documented decay schedule exactly, and a closed tag's values must count for no peer, in totals and in trim order.")
+CLAIMS["C14"]["note"] += (" Whether a registration under a just-closed name is refused is not asserted. Lifecycle operations are not generated in TestConcurrent.")
+CLAIMS["C19"]["text"] += (" Time is generated at nanosecond granularity: issue instants with arbitrary sub-second/sub-millisecond parts and uses at lifetime +1 ns / +0.4 ms / +0.6 ms / +0.4 s / +1 s (tokens: TokenTTL; challenge answers: 5 min), both randomly (TestServerProvenance, TestServerReuse) and exhaustively over key type x flow x 16 issue fractions x 9 use offsets (TestServerExpiryInstants); expiry is judged on full-precision time.Time values.")
+CLAIMS["C19"]["note"] += (" Acceptance exactly at the TTL instant and refusal before expiry are not judged; the issue instant is the virtual instant at which the harness saw the value handed out.")
